@@ -3,7 +3,7 @@ CONSTANTS
   Guids = {"g1", "g2"}
   RuleIds = {"r1"}
   Contents = {"c1"}
-  Versions = {"2.0"}
+  Versions = {"1.0"}
   ModeOf <- MCModeOf
   RulesKey = "item"
   IdsIdentifyContent = TRUE
@@ -11,21 +11,21 @@ CONSTANTS
   StatusInc = 0
   HostSpellsOddly = FALSE
   FetchCanonicalises = FALSE
-  PrunesOnStart = FALSE
+  PrunesOnStart = TRUE
   MaxKept = 1
   LocalNeedsIncarnationMatch = FALSE
-  KeepHigherIncarnation = TRUE
+  KeepHigherIncarnation = FALSE
   ReuseUnattested = FALSE
   ReadBackFailOpen = FALSE
   StateEarly = FALSE
-  InitScenarios = {"fresh"}
-  InitDocs <- DocsEmptyId
-  MaxReconf = 2
-  MaxFaults = 0
-  MaxCrash = 0
-  MaxDamage = 0
+  InitScenarios = {"fresh", "haskey"}
+  InitDocs <- DocsV1
+  MaxReconf = 1
+  MaxFaults = 2
+  MaxCrash = 1
+  MaxDamage = 1
   MaxNotify = 0
-  FsFaults = FALSE
+  FsFaults = TRUE
   AcquireMayRepeat = TRUE
-INVARIANTS Converged
+INVARIANTS TypeOK LatchedIsRecoverable NoCorruptFinalName AttestOnlyAfterStoreAndReadBack RestartUsesLocal
 CHECK_DEADLOCK FALSE
